@@ -100,6 +100,8 @@ import (
 // translate translates the given AST module into an equivalent IR module.
 func translate(old *ast.Module) (*ir.Module, error) {
 	gen := newGenerator()
+	verifTrace(gen, "begin", "")
+	defer verifTrace(gen, "end", "")
 	// 1. Index AST top-level entities.
 	indexStart := time.Now()
 	if err := gen.translateTargetDefs(old); err != nil {
@@ -157,6 +159,7 @@ func translate(old *ast.Module) (*ir.Module, error) {
 	//
 	// Note: the substeps of 8 can be done concurrently.
 	addStart := time.Now()
+	verifTrace(gen, "addDefs", "")
 	gen.addDefsToModule()
 	dbg.Println("add IR definitions to IR module took:", time.Since(addStart))
 	return gen.m, nil
